@@ -1,7 +1,7 @@
 (* One entry point for the extracted model: [run cmd args] returns the result fields.
    The OCaml driver only splits lines, (un)escapes and converts strings. *)
 From Coq Require Import List Bool NArith ZArith String Ascii.
-From PC Require Import Base.Cmp Base.Result Model.Pep440 Spec.Pep440Spec Spec.Specifier Model.VConstraint Model.Generic Model.Marker Model.MarkerAlg Model.Wheel Model.Select Model.PyRange Model.Meta Model.VHyp.
+From PC Require Import Base.Cmp Base.Result Model.Pep440 Spec.Pep440Spec Spec.Specifier Model.VConstraint Model.Generic Model.Marker Model.MarkerAlg Model.Wheel Model.Select Model.PyRange Model.Meta Model.VHyp Model.Req.
 Import ListNotations.
 Open Scope string_scope.
 Open Scope N_scope.
@@ -618,7 +618,28 @@ Definition run_spec (cmd : string) (args : list string) : option (list string) :
     | _ => None end
   else None.
 
+(* requirements (registry fragment) *)
+Definition run_req (cmd : string) (args : list string) : option (list string) :=
+  if seq cmd "reqparse" then
+    match args with
+    | [s] => Some match req_parse s with
+                  | ReqOk n ex c => ["ok"; n; sjoin "," ex; match vc_str c with Ok t => t | Err e => "e:" ++ err_str e end]
+                  | ReqInvalid => ["invalid"]
+                  | ReqOutside => ["outside"]
+                  | ReqErr e => ["err"; err_str e] end
+    | _ => None end
+  else if seq cmd "deptext" then      (* name, extras (comma separated), constraint text *)
+    match args with
+    | [n; ex; ct] =>
+      Some match parse_constraint_text false true ct with
+           | Ok c => match dep_text n (match lchars ex with [] => [] | l => map string_of_list_ascii (split_on ","%char l) end) c with
+                     | Some t => ["ok"; t] | None => ["outside"] end
+           | Err e => ["err"; err_str e] end
+    | _ => None end
+  else None.
+
 Definition run (cmd : string) (args : list string) : list string :=
+  match run_req cmd args with Some r => r | None =>
   match run_pep440 cmd args with
   | Some r => r
   | None =>
@@ -644,4 +665,4 @@ Definition run (cmd : string) (args : list string) : list string :=
                         end
               end
     end
-  end.
+  end end.
